@@ -20,6 +20,7 @@ ASSUMPTIONS = ["equality of table dumps across schedules is a value statement an
 
 
 def run(ctx):
+  _r12_5(ctx)
   F = ctx.facts
   T = TableId(F)
   ctx.rule('R12.1', 'no body reachable from Updater::index_block opens a read transaction, except Reorg::detect_reorg -> Index::block_hash (reviewed: committed-tip comparison only)')
@@ -171,3 +172,55 @@ def _deep(body, op):
   for c in sl.calls:
     out.append(Origin('call', body, call=c))
   return out
+
+
+def _r12_5(ctx):
+  """order and reset rules that make the stored content independent of how blocks were batched into commits"""
+  from ..core import where
+  from ..facts import describe_operand
+  from ..intervals import fmt_desc
+  from ..effects import always_with
+  from .common import deep_origins
+  F = ctx.facts
+  ctx.rule('R12.5', 'UtxoEntryBuf::merged(existing, new): at both call sites the first argument is the entry that already exists (the stored table value in commit, the cached null-outpoint entry in index_utxo_entries) and the second '
+           'the newly built one — otherwise the order of lost-sat ranges depends on how many blocks share a commit')
+  ctx.rule('R12.6', 'every per-batch counter that Updater::commit flushes into a statistic (outputs_traversed, sat_ranges_since_flush) is reset to 0 on every path after the flush, before the next commit — otherwise later commits of one update re-add it')
+  M = 'ord::index::utxo_entry::UtxoEntryBuf::merged'
+  sites = F.call_sites(M)
+  ctx.floor('R12.5', 'UtxoEntryBuf::merged call sites', len(sites), 2)
+  for c in sites:
+    b = c.body
+    ctx.analysed(b)
+    a0 = deep_origins(b, c.args[0], named_terminal=True)
+    a1 = deep_origins(b, c.args[1], named_terminal=True)
+    d0, d1 = fmt_desc(describe_operand(b, c.args[0])), fmt_desc(describe_operand(b, c.args[1]))
+    if b.n.endswith('::commit'):
+      ok = 'AccessGuard::value(' in d0 and 'ReadableTable::get(' in d0 and not ('AccessGuard::value(' in d1)
+      what = 'commit: merged(stored entry, cached entry)'
+    else:
+      ok = ('UtxoEntryBuf::new()' in d1) and ('UtxoEntryBuf::new()' not in d0)
+      what = f'{b.n.split("::")[-1]}: merged(cached entry, newly built entry)'
+    ctx.ob('R12.5', b.n, what, ok, f'first argument {d0[:80]}, second {d1[:80]}', where(b, c.line))
+  cm = ctx.body('R12.6', 'ord::index::updater::Updater::commit')
+  if cm is not None:
+    flushes = []
+    for c in cm.calls_to('ord::index::Index::increment_statistic'):
+      d = fmt_desc(describe_operand(cm, c.args[2]))
+      m = __import__('re').match(r'^self\.(\w+)$', d)
+      if m:
+        flushes.append((m.group(1), c))
+    ctx.floor('R12.6', 'statistics flushed from per-batch counters in commit', len(flushes), 2)
+    for fld, c in flushes:
+      resets = [(bi, s) for bi, blk in enumerate(cm.blocks) for s in blk['s'] if s.get('p', {}).get('l') == 1 and any(isinstance(e, dict) and e.get('n') == fld for e in (s['p'].get('p') or []))
+                and s['rv']['k'] == 'use' and cm.const_of(s['rv']['o']) == 0]
+      ok = any(always_with(cm, c.bb, bi) for bi, _ in resets)
+      if not ok:
+        # the reset may live in the caller, right after every commit call
+        ok_callers = []
+        for cc in F.call_sites('ord::index::updater::Updater::commit'):
+          cb = cc.body
+          rs = [bi for bi, blk in enumerate(cb.blocks) for s in blk['s'] if s.get('p', {}).get('l') == 1 and any(isinstance(e, dict) and e.get('n') == fld for e in (s['p'].get('p') or []))
+                and s['rv']['k'] == 'use' and cb.const_of(s['rv']['o']) == 0]
+          ok_callers.append(any(always_with(cb, cc.bb, bi) for bi in rs))
+        ok = bool(ok_callers) and all(ok_callers)
+      ctx.ob('R12.6', cm.n, f'self.{fld} is reset after it is flushed', ok, f'Statistic flushed from self.{fld} is re-added by every later commit of the same update call: the statistic depends on the commit interval', where(cm, c.line))
